@@ -42,6 +42,10 @@ func oracleC20(ctx *harness.Ctx, cs *harness.Case) (ds []harness.Discrepancy) {
 	if cs.Leg == "errors" || cs.Entry != "" {
 		return c20Errors(cs, add)
 	}
+	if cs.Aux["ops"] != "" {
+		c20Sequence(text, cs.Aux["ops"], add)
+		return
+	}
 	pos, _ := strconv.Atoi(cs.Aux["pos"])
 	end, _ := strconv.Atoi(cs.Aux["end"])
 	c20Position(text, "f.sql", pos, end, add)
@@ -101,6 +105,54 @@ func c20Position(text, file string, pos, end int, add func(sig, msg string)) {
 			kind = "multi-line"
 		}
 		add("C20 excerpt "+kind, fmt.Sprintf("Position(%d,%d).Source quotes %q with numbers %v, want lines %d..%d %q", pos, end, got, nums, wl+1, el+1, want))
+	}
+}
+
+// c20Sequence runs a sequence of ResolvePos / Position calls on ONE File value (the line table is
+// built lazily and any cached state lives there) and checks every result against the arithmetic.
+// ops: "r:<pos>" or "p:<pos>:<end>", comma separated.
+func c20Sequence(text, ops string, add func(sig, msg string)) {
+	f := &token.File{FilePath: "f.sql", Buffer: text}
+	for i, op := range strings.Split(ops, ",") {
+		parts := strings.Split(op, ":")
+		if len(parts) < 2 {
+			continue
+		}
+		p, _ := strconv.Atoi(parts[1])
+		if p < 0 || p > len(text) {
+			continue
+		}
+		wl, wc := refResolve(text, p)
+		switch parts[0] {
+		case "r":
+			var l, c int
+			if pn := callGuard(func() { l, c = f.ResolvePos(token.Pos(p)) }); pn != nil {
+				add("C20 panic ResolvePos in-sequence", fmt.Sprintf("call #%d ResolvePos(%d) of sequence %q panicked: %v", i, p, ops, pn))
+				return
+			}
+			if l != wl || c != wc {
+				add("C20 ResolvePos in-sequence", fmt.Sprintf("call #%d of sequence %q on one File: ResolvePos(%d) = (%d,%d), want (%d,%d)", i, ops, p, l, c, wl, wc))
+				return
+			}
+		case "p":
+			if len(parts) < 3 {
+				continue
+			}
+			e, _ := strconv.Atoi(parts[2])
+			if e < p || e > len(text) {
+				continue
+			}
+			el, ec := refResolve(text, e)
+			var pos *token.Position
+			if pn := callGuard(func() { pos = f.Position(token.Pos(p), token.Pos(e)) }); pn != nil {
+				add("C20 panic Position in-sequence", fmt.Sprintf("call #%d Position(%d,%d) of sequence %q panicked: %v", i, p, e, ops, pn))
+				return
+			}
+			if pos.Line != wl || pos.Column != wc || pos.EndLine != el || pos.EndColumn != ec {
+				add("C20 Position in-sequence", fmt.Sprintf("call #%d of sequence %q on one File: Position(%d,%d) = %d:%d-%d:%d, want %d:%d-%d:%d", i, ops, p, e, pos.Line, pos.Column, pos.EndLine, pos.EndColumn, wl, wc, el, ec))
+				return
+			}
+		}
 	}
 }
 
@@ -212,7 +264,54 @@ func runC20(ctx *harness.Ctx) {
 		})
 		ctx.Exhaustive(fmt.Sprintf("all texts of <=%d symbols over {a, é, \\n, \\r} x all 0<=pos<=end<=len", n), ctx.ViolationCount() == 0)
 	})
+	// call sequences on one shared File: every ordered pair of ResolvePos calls on every text of <=5 symbols
+	ctx.Leg("exhaustive-pairs-one-file", func() {
+		enumSeq(len(syms), ctx.Pick(5, 6), ctx.Shard, ctx.Of, func(ix []int) bool {
+			var b strings.Builder
+			for _, i := range ix {
+				b.WriteString(syms[i])
+			}
+			text := b.String()
+			for p1 := 0; p1 <= len(text); p1++ {
+				for p2 := 0; p2 <= len(text); p2++ {
+					ops := fmt.Sprintf("r:%d,r:%d", p1, p2)
+					cs := &harness.Case{Leg: "exhaustive-pairs-one-file", Input: text, Aux: map[string]string{"ops": ops}}
+					ctx.Eval(1)
+					if strings.Count(text, "\n") > 0 && p1 != p2 {
+						ctx.NonTrivial(harness.Hash(text, ops))
+					}
+					ctx.Check(nil, cs, oracleC20(ctx, cs))
+				}
+			}
+			return ctx.ViolationCount() < 6
+		})
+		ctx.Exhaustive("all texts of <=5/6 symbols x all ordered pairs of ResolvePos calls on one File value", ctx.ViolationCount() == 0)
+	})
 	big := []string{"a", "é", "日", " ", "\n", "\r", "\n", "abc", "\r\n"}
+	ctx.Rapid("sequences-one-file", ctx.Pick(5000, 100000), func(t *rapid.T) {
+		k := rapid.IntRange(0, 40).Draw(t, "n")
+		var b strings.Builder
+		for i := 0; i < k; i++ {
+			b.WriteString(rapid.SampledFrom(big).Draw(t, "sym"))
+		}
+		text := b.String()
+		n := rapid.IntRange(2, 8).Draw(t, "ops")
+		var ops []string
+		for i := 0; i < n; i++ {
+			p := rapid.IntRange(0, len(text)).Draw(t, "pos")
+			if rapid.Bool().Draw(t, "position") {
+				ops = append(ops, fmt.Sprintf("p:%d:%d", p, rapid.IntRange(p, len(text)).Draw(t, "end")))
+			} else {
+				ops = append(ops, fmt.Sprintf("r:%d", p))
+			}
+		}
+		cs := &harness.Case{Leg: "sequences-one-file", Input: text, Aux: map[string]string{"ops": strings.Join(ops, ",")}}
+		ctx.Eval(1)
+		if strings.Count(text, "\n") > 0 {
+			ctx.NonTrivial(harness.Hash(text, cs.Aux["ops"]))
+		}
+		ctx.Check(t, cs, oracleC20(ctx, cs))
+	})
 	ctx.Rapid("random-texts", ctx.Pick(5000, 100000), func(t *rapid.T) {
 		k := rapid.IntRange(0, 40).Draw(t, "n")
 		var b strings.Builder
